@@ -352,17 +352,31 @@ Definition decrypt_pkcs1v15 (k : privkey) (ciphertext : bytes) : outcome bytes :
     if valid then Ok (skipn (Z.to_nat index) em) else Err).
 
 (* ---------------------------------------------------------------- correspondence *)
+(* A case is a group: one key, an environment of literal byte strings, and a
+   list of operations with the observation made on the implementation.  Byte
+   arguments are small specifications (literal, reference into the
+   environment, pseudo-random, mutation) that the Go harness and the model
+   expand identically, and long outputs are compared through their length and a
+   31-bit rolling checksum: Coq needs ~0.3 ms per byte of literal data in a
+   case file, so the data is kept out of the terms. *)
 Inductive obs :=
-| OBytes (b : bytes)      (* returned bytes / nil error *)
-| OErr                    (* non-nil error *)
-| OPanic                  (* recovered run-time panic *)
-| OBig (l : list bigint). (* big.Int results *)
+| OBytes (b : bytes)        (* returned bytes / nil error *)
+| OSum (len : N) (sum : N)  (* returned bytes, as length and checksum *)
+| OErr                      (* non-nil error *)
+| OPanic                    (* recovered run-time panic *)
+| OBig (l : list bigint).   (* big.Int results *)
 
 Definition bigint_eqb (a b : bigint) : bool := option_eqb Z.eqb a b.
 
+(* h' = (h*31 + x + 1) land (2^31-1), as vh.Mix31 *)
+Definition bsum (b : bytes) : N :=
+  fold_left (fun h x => N.land (h * 31 + x + 1) 2147483647) b 7%N.
+
+(* model result against observation *)
 Definition obs_eqb (a b : obs) : bool :=
   match a, b with
   | OBytes x, OBytes y => bytes_eqb x y
+  | OBytes x, OSum l h => N.eqb (N.of_nat (length x)) l && N.eqb (bsum x) h
   | OErr, OErr => true
   | OPanic, OPanic => true
   | OBig x, OBig y => list_eqb bigint_eqb x y
@@ -373,6 +387,39 @@ Definition obs_bytes (o : outcome bytes) : obs :=
   match o with Ok b => OBytes b | Err => OErr | Panic => OPanic end.
 Definition obs_unit (o : outcome unit) : obs :=
   match o with Ok _ => OBytes [] | Err => OErr | Panic => OPanic end.
+
+(* byte-string specifications *)
+Inductive bspec :=
+| BLit (b : bytes)
+| BRef (i : nat)                          (* i-th literal of the group's environment *)
+| BGen (seed : N) (len : nat)             (* pseudo-random *)
+| BXor (s : bspec) (pos : nat) (mask : N) (* one byte changed *)
+| BDrop (s : bspec) (n : nat)             (* without the first n bytes *)
+| BApp (a b : bspec).
+
+Fixpoint prng_bytes (x : N) (len : nat) : bytes :=
+  match len with
+  | O => []
+  | S l => let x' := N.land (x * 1103515245 + 12345) 2147483647 in
+           N.land (N.shiftr x' 16) 255 :: prng_bytes x' l
+  end.
+
+Fixpoint xor_at (b : bytes) (pos : nat) (mask : N) : bytes :=
+  match b, pos with
+  | [], _ => []
+  | x :: r, O => N.lxor x mask :: r
+  | x :: r, S p => x :: xor_at r p mask
+  end.
+
+Fixpoint bs_eval (env : list bytes) (s : bspec) : bytes :=
+  match s with
+  | BLit b => b
+  | BRef i => nth i env []
+  | BGen seed len => prng_bytes seed len
+  | BXor s pos mask => xor_at (bs_eval env s) pos mask
+  | BDrop s n => skipn n (bs_eval env s)
+  | BApp a b => bs_eval env a ++ bs_eval env b
+  end.
 
 (* math/big primitives: Exp, ModInverse, Bytes/SetBytes/BitLen *)
 Inductive bigop :=
@@ -393,36 +440,37 @@ Definition check_bigcase (c : bigcase) : bool := obs_eqb (run_bigop (fst c)) (sn
 (* public-key operations *)
 Inductive pubop :=
 | PCheckPub
-| PEncrypt (pt : bytes)
-| PConstructEM (hash : N) (hashed : bytes)
-| PVerify15 (hash : N) (hashed sig : bytes)
-| PEncrypt15 (random msg : bytes).
+| PEncrypt (pt : bspec)
+| PConstructEM (hash : N) (hashed : bspec)
+| PVerify15 (hash : N) (hashed sig : bspec)
+| PEncrypt15 (random msg : bspec).
 
-Definition run_pubop (k : pubkey) (o : pubop) : obs :=
+Definition run_pubop (k : pubkey) (env : list bytes) (o : pubop) : obs :=
   match o with
   | PCheckPub => if check_pub k then OBytes [] else OErr
-  | PEncrypt pt => obs_bytes (encrypt k pt)
-  | PConstructEM h d => obs_bytes (construct_em k h d)
-  | PVerify15 h d s => obs_unit (verify_pkcs1v15 k h d s)
-  | PEncrypt15 r m => obs_bytes (encrypt_pkcs1v15 k r m)
+  | PEncrypt pt => obs_bytes (encrypt k (bs_eval env pt))
+  | PConstructEM h d => obs_bytes (construct_em k h (bs_eval env d))
+  | PVerify15 h d s => obs_unit (verify_pkcs1v15 k h (bs_eval env d) (bs_eval env s))
+  | PEncrypt15 r m => obs_bytes (encrypt_pkcs1v15 k (bs_eval env r) (bs_eval env m))
   end.
 
-Definition pubcase := (pubkey * pubop * obs)%type.
+Definition pubcase := (pubkey * list bytes * list (pubop * obs))%type.
 Definition check_pubcase (c : pubcase) : bool :=
-  let '(k, o, ob) := c in obs_eqb (run_pubop k o) ob.
+  let '(k, env, ops) := c in
+  forallb (fun oo => obs_eqb (run_pubop k env (fst oo)) (snd oo)) ops.
 
 (* private-key operations *)
 Inductive privop :=
-| VDecrypt (ct : bytes) (check : bool)
-| VSign15 (hash : N) (hashed : bytes)
-| VDecrypt15 (ct : bytes)
+| VDecrypt (ct : bspec) (check : bool)
+| VSign15 (hash : N) (hashed : bspec)
+| VDecrypt15 (ct : bspec)
 | VPrecompute.
 
-Definition run_privop (k : privkey) (o : privop) : obs :=
+Definition run_privop (k : privkey) (env : list bytes) (o : privop) : obs :=
   match o with
-  | VDecrypt ct chk => obs_bytes (decrypt k ct chk)
-  | VSign15 h d => obs_bytes (sign_pkcs1v15 k h d)
-  | VDecrypt15 ct => obs_bytes (decrypt_pkcs1v15 k ct)
+  | VDecrypt ct chk => obs_bytes (decrypt k (bs_eval env ct) chk)
+  | VSign15 h d => obs_bytes (sign_pkcs1v15 k h (bs_eval env d))
+  | VDecrypt15 ct => obs_bytes (decrypt_pkcs1v15 k (bs_eval env ct))
   | VPrecompute =>
       match precompute k with
       | Ok k' => OBig [pre_dp k'; pre_dq k'; pre_qinv k']
@@ -431,17 +479,21 @@ Definition run_privop (k : privkey) (o : privop) : obs :=
       end
   end.
 
-Definition privcase := (privkey * privop * obs)%type.
+Definition privcase := (privkey * list bytes * list (privop * obs))%type.
 Definition check_privcase (c : privcase) : bool :=
-  let '(k, o, ob) := c in obs_eqb (run_privop k o) ob.
+  let '(k, env, ops) := c in
+  forallb (fun oo => obs_eqb (run_privop k env (fst oo)) (snd oo)) ops.
 
 End WithPowmod.
 
 (* constructors used by the generated case files *)
-(* big integers are written as big-endian base-2^32 limbs: Coq parses a
-   300-digit decimal numeral in ~0.1 s, 32 small ones in under a millisecond *)
+(* big integers and byte strings are written as big-endian base-2^56 limbs: Coq
+   parses a 300-digit decimal numeral in ~0.1 s and a 128-element byte list in
+   ~20 ms, but 19 seventeen-digit numerals in about a millisecond *)
 Definition zl (limbs : list N) : Z :=
-  fold_left (fun acc x => acc * 4294967296 + Z.of_N x) limbs 0.
+  fold_left (fun acc x => Z.shiftl acc 56 + Z.of_N x) limbs 0.
+(* the byte string of length len whose big-endian value is zl limbs *)
+Definition bl (len : nat) (limbs : list N) : bytes := i2osp len (zl limbs).
 Definition mk_pub (n e : bigint) : pubkey := {| pN := n; pE := e |}.
 Definition mk_priv (n e d : bigint) (ps : list Z) (dp dq qinv : bigint) : privkey :=
   {| pub := mk_pub n e; pD := d; primes := ps; pre_dp := dp; pre_dq := dq; pre_qinv := qinv |}.
